@@ -4,3 +4,8 @@ import TephraProps.C15
 #print axioms Tephra.Props.C15_push_locked_ignored
 #print axioms Tephra.Props.C15_raw_strips
 #print axioms Tephra.Props.C15_send
+#print axioms Tephra.Props.C15_probe_line
+#print axioms Tephra.Props.C15_tree
+#print axioms Tephra.Props.C15_tree_fuel
+#print axioms Tephra.Props.C15_tree_count
+#print axioms Tephra.Props.C15_tree_nth
